@@ -472,3 +472,8 @@ def run(ck, prog, ctx):
             # the recurrence fills entry i with entry[i-1] * i
             muls = [st for _, st in fc.stmts() if st.k == "assign" and st.rv["k"] == "bin" and st.rv["op"].startswith("Mul")]
             ck.ob("TABLE", "factorial-table/recurrence", len(muls) == 1, "the table is filled by one multiplicative recurrence (%d multiplication site(s))" % len(muls), where=fc.where())
+
+    # ---- accessors: a method named after a field returns that field, not a sibling of the same type
+    ck.rule("GETTER", "an accessor `f()` / `f_mut()` of a struct with a field `f` (or its documented alias) derives its result from that field (DESIGN 3.9)")
+    from engines import check_getters
+    check_getters(ck, "GETTER", prog, r"^src/stats\.rs$", floor=4)
